@@ -71,7 +71,8 @@ def tool_report_relevant(prop, tr):
 def plan_C01(tier, seed):
     return dict(level="exploration", rule=RULE_ARENA + "; C01 oracle: interval map of live blocks vs ledger-held chunks; collections layer: the buffers (whole capacity) of live vectors, strings, boxes, boxed and leaked slices of one arena are pairwise disjoint",
                 shards=arena_shards(seed, tier, ["general", "alignment", "allocator"], 60, 600)
-                + [sh(e, "vecdiff", seed, 720 + i, iters=(200 if tier == "quick" else 3000), ops=150, tracked=i % 2) for i, e in enumerate(("debug", "release"))],
+                + [sh(e, "vecdiff", seed, 720 + i, iters=(200 if tier == "quick" else 3000), ops=150, tracked=i % 2) for i, e in enumerate(("debug", "release"))]
+                + [sh(e, "c19", seed, 725 + i, ma=ma) for i, (e, ma) in enumerate([("release", 8), ("release", 16), ("debug", 4)])],
                 require={"c01.blocks_checked": 5000, "c01.zst_checked": 200, "c01.collection_blocks_checked_for_overlap": 20000}, assumptions=ASSUME_COMMON)
 
 
